@@ -3,7 +3,8 @@ from gen import Gen
 from seqdiff import run_seq
 
 LEVEL = "translation_validation"
-COQ_TARGETS = ()
+COQ_TARGETS = ("props/C04.vo",)
+THEOREMS = ["C04_covered_records_not_replayed_partial", "C04_uncovered_records_replayed_partial", "C04_covered_example"]
 
 
 def programs(seed, n, nops):
@@ -89,7 +90,8 @@ def sealed_journal_history(variant):
 
 
 def run(rep, tier, seed, build):
-    from common import pmap
+    from common import pmap, proof_audit
+    obl, dis, pproblems = proof_audit("props/C04.v", THEOREMS, build["coq"])
     sj = [x for x in pmap(sealed_journal_history, [seed % 4, (seed + 1) % 4] if tier == "quick" else [0, 1, 2, 3], workers=4) if x]
     for msg, prog in sj[:1]:
         rep.violation("# C04: %s\n%s" % (msg, prog))
@@ -113,7 +115,10 @@ def run(rep, tier, seed, build):
                              "non-trivial = >= 4 distinct operation kinds, distinct by operation-kind sequence",
                         samples=[progs[0].splitlines()[:14]], op_histogram=dict(res["ophist"]),
                         known_finding_programs=st["known_finding_programs"], ingest_race_schedules=len(rr), sealed_journal_histories=2 if tier == "quick" else 4,
-                        correspondence_failures=st.get("correspondence_failures", 0))
+                        correspondence_failures=st.get("correspondence_failures", 0),
+                        partial_theorems=THEOREMS, partial_theorems_discharged=dis, partial_theorem_problems=pproblems)
+    if pproblems and not rep.violations:
+        rep.violation("# C04: partial theorems no longer check\n" + "\n".join(pproblems) + "\n", suffix="no-failing-input-found")
 
 
 def replay(rep, path, build):
